@@ -14,13 +14,14 @@ structure St where
 def init : St := { n := Node.init, keys := [] }
 
 /-- `node.StartWithHeight` as of the pinned source: the calls on the node's components in order.  The harness fixture
-`chainfx.Start` re-states the part before the network components (up to `ProvideApplyNewEpochFunc`). -/
+`chainfx.Start` re-states the part before the network components (up to `ProvideApplyNewEpochFunc`).  Calls of the node's own
+methods declared in node.go are replaced by the calls their bodies make (moving code into a helper method changes nothing). -/
 def expectedStartSequence : String :=
   "secStore.AddKey,blockchain.InitializeChain,appState.Initialize,blockchain.Head.Height,appState.Initialize," ++
   "blockchain.EnsureIntegrity,blockchain.Head.Height,blockchain.ResetTo,blockchain.ApplyHotfixToState,txpool.Initialize," ++
   "secStore.GetAddress,flipKeyPool.Initialize,votes.Initialize,fp.Initialize,ceremony.Initialize,blockchain.GetBlock," ++
   "blockchain.Head.Hash,blockchain.ProvideApplyNewEpochFunc,offlineDetector.Start,consensusEngine.Start,pm.Start," ++
-  "upgrader.Start,stopInitialRPC,startRPC"
+  "upgrader.Start,httpListener.Close,httpHandler.Stop,httpServer.Close"
 
 def parseTx (s : String) : Option Tx :=
   match s.splitOn ":" with
